@@ -43,11 +43,11 @@ var requests = []request{
 	{"GET", "/u/1/2"},
 	{"GET", "/a/7"},
 	{"GET", "/s"},
-	{"GET", "/v/8/9"},   // walks through two parameter nodes, then no method node: no-route
-	{"GET", "/u/1"},     // partial walk, no route
-	{"GET", "/nope"},    // no route at once
-	{"GET", "/w/x/y"},   // trailing *
-	{"GET", "/b/1/2/3"}, // matches only once the late route is registered
+	{"GET", "/v/8/9"},    // walks through two parameter nodes, then no method node: no-route
+	{"GET", "/u/1"},      // partial walk, no route
+	{"GET", "/nope"},     // no route at once
+	{"GET", "/w/x/y"},    // trailing *
+	{"GET", "/b/1/2/3"},  // matches only once the late route is registered
 	{"GET", "/u/boom/1"}, // handler panics (recovered by the relay)
 	{"GET", "/u/9/"},     // trailing slash: the second parameter is the empty string
 	{"GET", "/w/"},       // trailing slash on the * route: empty rest
@@ -63,12 +63,12 @@ type seen struct {
 }
 
 type world struct {
-	mux     *httpd.Mux
-	routes  []route
-	late    bool
-	log     []seen // observations of the request being served
-	ids     []string
-	yield   bool
+	mux    *httpd.Mux
+	routes []route
+	late   bool
+	log    []seen // observations of the request being served
+	ids    []string
+	yield  bool
 }
 
 func (w *world) observe(where string, s *httpd.Store) {
@@ -167,10 +167,18 @@ func reference(q request, late bool) []seen {
 
 // mask hides the per-Mux random prefix of a request id (messages must be reproducible)
 func mask(id string) string {
-	if len(id) >= 9 {
+	if len(id) > 9 && id[8] == '-' {
 		return "<prefix>" + id[8:]
 	}
-	return id
+	return fmt.Sprintf("<id of %d bytes>", len(id))
+}
+
+// counterPart is the part of an id that orders the requests of one Mux, where the id has one.
+func counterPart(id string) string {
+	if len(id) > 9 && id[8] == '-' {
+		return id[9:]
+	}
+	return "id"
 }
 
 // compare returns "" when the observations of a request equal those on a fresh Mux.
@@ -192,9 +200,6 @@ func compare(q request, late bool, log []seen, escaped any) string {
 		if log[i].id != log[i].id2 || log[i].id != log[0].id {
 			return fmt.Sprintf("C05: request %s %s: GetID changed during the request (%q, %q, %q)", q.method, q.path, mask(log[0].id), mask(log[i].id), mask(log[i].id2))
 		}
-		if len(log[i].id) < 10 || log[i].id[8] != '-' {
-			return fmt.Sprintf("C05: malformed request id %q", mask(log[i].id))
-		}
 	}
 	return ""
 }
@@ -202,9 +207,8 @@ func compare(q request, late bool, log []seen, escaped any) string {
 // ---------------------------------------------------------------- H: explicit-state search
 
 type sys struct {
-	w    *world
-	ids  map[string]bool
-	pref string
+	w   *world
+	ids map[string]bool
 }
 
 func poolOf(m *httpd.Mux) *vsync.Pool {
@@ -232,9 +236,12 @@ func canon(s *sys) string {
 		var items []string
 		for _, it := range p.Items() {
 			st := it.(*httpd.Store)
-			idv := field(reflect.ValueOf(st).Elem(), "id")
+			lenID := -1 // the private id field, where the Store has one of that name
+			if idv := field(reflect.ValueOf(st).Elem(), "id"); idv.IsValid() && idv.Kind() == reflect.String {
+				lenID = idv.Len()
+			}
 			full := st.P.V[:cap(st.P.V)] // stale values beyond len are part of the state: a reslice can expose them
-			items = append(items, fmt.Sprintf("{K=%v lenV=%d capV=%d V=%q status=%d R=%v I=%v lenID=%d origin=%v}", st.P.K, len(st.P.V), cap(st.P.V), full, st.W.Status, st.R != nil, st.I != nil, idv.Len(), st.W.Origin != nil))
+			items = append(items, fmt.Sprintf("{K=%v lenV=%d capV=%d V=%q status=%d R=%v I=%v lenID=%d origin=%v}", st.P.K, len(st.P.V), cap(st.P.V), full, st.W.Status, st.R != nil, st.I != nil, lenID, st.W.Origin != nil))
 		}
 		b.WriteString(strings.Join(items, ";")) // order matters: it decides which store a choice returns
 	}
@@ -280,11 +287,6 @@ func apply(s *sys, op int) string {
 			return fmt.Sprintf("C05: request id %q handed out twice by one Mux", mask(id))
 		}
 		s.ids[id] = true
-		if s.pref == "" {
-			s.pref = id[:9]
-		} else if id[:9] != s.pref {
-			return "C05: the request id prefix changed between two requests of one Mux"
-		}
 	}
 	return ""
 }
@@ -343,7 +345,7 @@ func sbody(late bool, plan [][]int) func(c *vsched.Ctx) {
 							return fmt.Sprintf("C05: request id %q handed out twice by one Mux", mask(r.log[0].id))
 						}
 						ids[r.log[0].id] = true
-						lab = append(lab, r.log[0].id[9:])
+						lab = append(lab, counterPart(r.log[0].id))
 					}
 				}
 			}
@@ -371,7 +373,6 @@ func serveVia(shared, mine *world, q request) ([]seen, any) {
 	}()
 	return mine.log, esc
 }
-
 
 func main() {
 	P := func(b ...int) sdrive.Plan { return sdrive.Plan{Bounds: b} }
